@@ -29,6 +29,19 @@ def probe():
     n = [len(o['rows']) for o in res]
     if n[1] != n[2]:
         raise Inconclusive('contract probe: the two hash semi-join executors disagree on NULL keys (%s)' % n)
-    _cache = {'hashjoin_null_eq': n[0] == 1, 'semijoin_null_eq': n[1] == 1, 'mergejoin_null_eq': n[3] == 1,
+    import shutil
+    from vlib.common import scratch_dir
+    sorted_runs = 0
+    for attempt in range(2):
+        d = scratch_dir('probe')
+        stm = ['create table t(a int primary key, b int)'] + ['insert into t values (%d, %d)' % (k, k) for k in (5, 3, 6, 1, 4, 2)] + \
+              ['pragma disable_optimizer', 'select a, b from t']
+        o2, rc2, err2 = rl('sql', {'engine': 'disk', 'dir': d, 'block': 64, 'rowset': 256, 'stmts': stm})
+        shutil.rmtree(d, ignore_errors=True)
+        q = [o for o in o2 if o.get('sql') == 'select a, b from t']
+        if not q or not q[0].get('ok'):
+            raise Inconclusive('contract probe (disk scan order) failed: %s' % err2[-300:])
+        sorted_runs += [r[0] for r in q[0]['rows']] == ['1', '2', '3', '4', '5', '6']
+    _cache = {'disk_scan_sorted_by_pk': sorted_runs == 2, 'hashjoin_null_eq': n[0] == 1, 'semijoin_null_eq': n[1] == 1, 'mergejoin_null_eq': n[3] == 1,
               'count_distinct_counts_null': res[4]['rows'][0][0] == '1'}
     return _cache
